@@ -22,9 +22,17 @@ import (
 // trimmed below min(idle before, watermark); inside the gc period nothing
 // happens.
 // zz:repeat 64
-func ZZ_C08_adjust_pool() {
+func ZZ_C08_adjust_pool() { zzAdjustPool(false) }
+
+// The same on an IPv6-only node: every interface carries just its (unowned)
+// primary IPv4 address, the pods' addresses are the IPv6 ones - ownership in
+// either family keeps the interface.
+// zz:repeat 64
+func ZZ_C08_adjust_pool_ipv6_only() { zzAdjustPool(true) }
+
+func zzAdjustPool(v6only bool) {
 	node := &networkv1beta1.Node{}
-	node.Spec.ENISpec = &networkv1beta1.ENISpec{EnableIPv4: true}
+	node.Spec.ENISpec = &networkv1beta1.ENISpec{EnableIPv4: !v6only, EnableIPv6: v6only}
 	keep := zz.Shard(5) // the max-pool watermark, one shard per value 0..4
 	node.Spec.Pool = &networkv1beta1.PoolSpec{MaxPoolSize: keep}
 	node.Status.NetworkInterfaces = map[string]*networkv1beta1.NetworkInterface{}
@@ -38,16 +46,27 @@ func ZZ_C08_adjust_pool() {
 	for e := 0; e < 2; e++ {
 		es := strconv.Itoa(e)
 		eni := &networkv1beta1.NetworkInterface{ID: "eni-" + es, Status: aliyunClient.ENIStatusInUse, NetworkInterfaceType: networkv1beta1.ENITypeSecondary,
-			NetworkInterfaceTrafficMode: networkv1beta1.NetworkInterfaceTrafficModeStandard, IPv4: map[string]*networkv1beta1.IP{}}
+			NetworkInterfaceTrafficMode: networkv1beta1.NetworkInterfaceTrafficModeStandard, IPv4: map[string]*networkv1beta1.IP{}, IPv6: map[string]*networkv1beta1.IP{}}
+		if v6only {
+			k := "10.0." + es + ".1"
+			eni.IPv4[k] = &networkv1beta1.IP{IP: k, Primary: true, Status: networkv1beta1.IPStatusValid}
+		}
 		for i := 0; i < 2; i++ {
 			k := "10.0." + es + "." + strconv.Itoa(i+1)
-			ip := &networkv1beta1.IP{IP: k, Primary: i == 0,
+			if v6only {
+				k = "fd00:" + es + "::" + strconv.Itoa(i+1)
+			}
+			ip := &networkv1beta1.IP{IP: k, Primary: i == 0 && !v6only,
 				Status: networkv1beta1.IPStatusValid,
 				PodID:  []string{"", "ns/p" + es + strconv.Itoa(i)}[zz.Fork(k+".owned", 2)]}
 			if i == 1 && zz.Bool(k+".already.deleting") {
 				ip.Status = networkv1beta1.IPStatusDeleting
 			}
-			eni.IPv4[k] = ip
+			if v6only {
+				eni.IPv6[k] = ip
+			} else {
+				eni.IPv4[k] = ip
+			}
 			all = append(all, pre{eni, ip, ip.PodID, string(ip.Status)})
 			if ip.PodID == "" && ip.Status == networkv1beta1.IPStatusValid {
 				idleBefore++
@@ -81,6 +100,9 @@ func ZZ_C08_adjust_pool() {
 			zz.Assert(!recently && eni.Status == aliyunClient.ENIStatusDeleting, "an interface is only ever moved to Deleting, and not inside the gc period")
 			for _, ip := range eni.IPv4 {
 				zz.Assert(ip.PodID == "", "an interface is given up only when none of its addresses has an owner")
+			}
+			for _, ip := range eni.IPv6 {
+				zz.Assert(ip.PodID == "", "an interface is given up only when none of its addresses (of either family) has an owner")
 			}
 		}
 	}
